@@ -36,7 +36,7 @@ Clauses(X, K, C) ==
         Cl("C03_Completes", IF dom THEN K.preOk ELSE FALSE, Completed(t)),
         Cl("C03_Fallthrough", IF done THEN K.dom ELSE FALSE, C03_Fallthrough(K)),
         Cl("C03_BranchCall", IF done THEN K.dom ELSE FALSE, C03_BranchCall(K)),
-        Cl("C03_Returns", IF done THEN K.dom ELSE FALSE, C03_Returns(K)),
+        Cl("C03_Returns", IF done THEN K.dom /\ ~RetargetsACall(X) ELSE FALSE, C03_Returns(K)),
         Cl("C03_NoBuriedTerminator", IF done THEN K.dom ELSE FALSE, C03_NoBuriedTerminator(X)),
         Cl("C03_EndpointsAlive", done, C03_EndpointsAlive(X)),
         Cl("C05_Completes", dom /\ t.fault = 0, Completed(t)),
